@@ -26,6 +26,15 @@ ASSUMPTIONS = ['reference = textbook sum p_xy ln(p_xy/(p_x p_y)) in float64 with
                'tolerance 2e-5 + 2e-6*(H(X)+H(Y)) covers float32 rounding of per-stratum terms and the result']
 
 
+def _call(Ya, Xa, c):
+    """The entry point is called directly from the oracle: an exception on a valid pair of int32 vectors is a violation."""
+    try:
+        return float(cut.mutual_info_estimator_numba(Ya, Xa, np.float32(1.0), bool(c)))
+    except Exception as e:  # noqa: BLE001
+        raise Violation(f'estimator raised {type(e).__name__}: {str(e)[:300]} for int32 vectors of length {len(Xa)} '
+                        f'(contiguous: {Ya.flags.c_contiguous}, {Xa.flags.c_contiguous})', kind='C01/exception')
+
+
 def own(v):
     """The caller's own int32 array (scored repeatedly, as a caller holding its data would)."""
     return np.ascontiguousarray(v, dtype=np.int32).copy()
@@ -35,7 +44,7 @@ def mi(Y, X):
     """Score on caller-owned int32 arrays: `Y`, `X` may be int32 arrays the oracle keeps and passes again."""
     Ya = Y if isinstance(Y, np.ndarray) and Y.dtype == np.int32 else own(Y)
     Xa = X if isinstance(X, np.ndarray) and X.dtype == np.int32 else own(X)
-    return float(cut.mutual_info_estimator_numba(Ya, Xa, np.float32(1.0), False))
+    return _call(Ya, Xa, False)
 
 
 def _nontrivial(Y, X, iref):
@@ -47,9 +56,9 @@ def _nontrivial(Y, X, iref):
 
 def oracle_reference(case, rec):
     if 'lagged' in case:
-        _, Ya, Xa = gens.build_lagged(case['lagged'])      # overlapping int32 views of one buffer
+        _, Ya, Xa = gens.build_lagged(case['lagged'])      # int32 views of one buffer (overlapping and / or strided)
         Y, X = Ya.astype(np.int64), Xa.astype(np.int64)     # values as passed, kept for the reference
-        rec.cls('overlapping-views')
+        rec.cls('views:' + case['lagged'].get('layout', 'windows'))
     else:
         Y, X = gens.materialize_pair(case)
         Ya, Xa = own(Y), own(X)
@@ -95,7 +104,7 @@ def oracle_corollaries(case, rec):
         raise Violation(f'self score {sx!r} != H(X)={hx!r}', kind='C01/self')
 
 
-ORACLES = {'C01/repeat-call': oracle_reference, 'C01/views': oracle_reference, 'C01/high-card': oracle_reference, 'C01/wide': oracle_reference, 'C01/reference': oracle_reference, 'C01/corollaries': oracle_corollaries,
+ORACLES = {'C01/exception': oracle_reference, 'C01/max-n': oracle_reference, 'C01/repeat-call': oracle_reference, 'C01/views': oracle_reference, 'C01/high-card': oracle_reference, 'C01/wide': oracle_reference, 'C01/reference': oracle_reference, 'C01/corollaries': oracle_corollaries,
            'C01/exhaustive': oracle_reference}
 for _k in ('symmetry', 'nonneg', 'constant', 'upper', 'self'):
     ORACLES['C01/' + _k] = oracle_corollaries
@@ -203,6 +212,7 @@ def run(ctx):
     ]
     clauses.append(Clause('C01/views', lambda: gens.lagged_pair(), oracle_reference, quick=300, thorough=20000, quick_shards=2))
     clauses.append(Clause('C01/high-card', lambda: gens.highcard_pair(), oracle_reference, quick=24, thorough=600, quick_shards=8))
+    clauses.append(Clause('C01/max-n', lambda: gens.maxn_pair(), oracle_reference, quick=2, thorough=16, quick_shards=2, thorough_shards=8))
     clauses.append(Clause('C01/wide', lambda: gens.wide_pair(), oracle_reference, quick=4, thorough=48, quick_shards=4,
                           thorough_shards=16))
     if ctx.tier == 'thorough':
